@@ -211,23 +211,45 @@ CGraph::UnorderedItems CGraph::ExpandInputs'''),
         }
       }
       return true;'''),
- ('ccl/cclLang/src/Reference.cpp', 'ExtractAll with a while loop', '''  for (auto position = NextReference(text); position.has_value();
-    position = NextReference(text, position->finish)) {
+ ('ccl/cclLang/src/Reference.cpp', 'ExtractAll with a while loop', '''  for (auto position = NextReference(text); position.has_value(); ) {
     if (auto ref = Reference::Parse(Substr(text, position.value())); ref.IsValid()) {
       ref.position = position.value();
       result.emplace_back(std::move(ref));
+      position = NextReference(text, position->finish);
+    } else {
+      position = NextReference(text, position->start + markerLen);
     }
   }
   return result;''', '''  auto position = NextReference(text);
   while (position.has_value()) {
     auto ref = Reference::Parse(Substr(text, position.value()));
+    const auto resume = ref.IsValid() ? position->finish : position->start + markerLen;
     if (ref.IsValid()) {
       ref.position = position.value();
       result.emplace_back(std::move(ref));
     }
-    position = NextReference(text, position->finish);
+    position = NextReference(text, resume);
   }
   return result;'''),
+ ('ccl/core/src/ops/RSOperations.cpp', 'handover test written with the boolean conversion', '''  if (resultSchema == nullptr) {
+    ResetResult(); // Note: result of the previous run was handed over to the caller''', '''  if (!resultSchema) {
+    ResetResult(); // Note: result of the previous run was handed over to the caller'''),
+ ('ccl/rslang/include/ccl/rslang/ParserState.hpp', 'a larger depth bound', '''MAX_TREE_DEPTH = 1000;''', '''MAX_TREE_DEPTH = 2000;'''),
+ ('ccl/core/src/oss/ossOperationsFacet.cpp', 'null test of the translations written the other way round', '''  } else if (operations.at(pid)->translations == nullptr) {
+    return false;
+  } else {''', '''  } else if (!operations.at(pid)->translations) {
+    return false;
+  } else {'''),
+ ('ccl/core/src/semantic/rsmodel/rsValuesFacet.cpp', 'base lookup tested in the negative form with early value', '''    const auto baseUID = core.Core().FindAlias(type.E().baseID);
+    if (!baseUID.has_value()) {
+      return false;
+    }
+    const auto* baseText = TextFor(baseUID.value());
+    return baseText != nullptr && baseText->HasInterpretantFor(data.E().Value());''', '''    if (const auto baseUID = core.Core().FindAlias(type.E().baseID); baseUID.has_value()) {
+      const auto* baseText = TextFor(baseUID.value());
+      return baseText != nullptr && baseText->HasInterpretantFor(data.E().Value());
+    }
+    return false;'''),
  ('ccl/cclGraph/src/CGraph.cpp', 'reachability through the closure of the source minus the trivial path', '''  UnorderedItems successors{};
   for (const auto child : graph[IndexFor(source)].outputs) {
     successors.emplace(graph[child].uid);
